@@ -379,10 +379,25 @@ func c06Stream(o *out, r *rng, thorough bool) {
 						cnt++
 					}
 				}
+				plain := t.plainFiles()
 				for i := 0; i < cnt+2; i++ {
 					reqs = append(reqs, creq{op: op})
 					if r.chance(10) {
 						reqs = append(reqs, creq{op: opStatFile, path: d}) // interleaving must not disturb the cursor
+					}
+					// ... nor must the connection's other state: a file opened, replaced, closed through the
+					// reserved path /CLOSEFILE, or an open that fails, in the middle of an enumeration
+					if len(plain) > 0 && (r.chance(12) || (rep == 1 && i == 1)) {
+						reqs = append(reqs, creq{op: opOpenFile, path: plain[r.intn(len(plain))]})
+						switch r.intn(3) {
+						case 0:
+							reqs = append(reqs, creq{op: opOpenFile, path: "/CLOSEFILE"})
+						case 1:
+							reqs = append(reqs, creq{op: opOpenFile, path: "/no-such-file.bin"})
+						}
+					}
+					if r.chance(4) {
+						reqs = append(reqs, creq{op: opOpenFile, path: "/CLOSEFILE"})
 					}
 				}
 			default:
@@ -510,6 +525,16 @@ func c06Run(o *out, t *tree, reqs []creq, key string) {
 						fmt.Fprintf(&sb, "r%d=%s ", i, digest(b))
 					case opGetDirSize:
 						fmt.Fprintf(&sb, "r%d=%s ", i, digest(be64(uint64(dirSizeAnswer(filepath.Join(root, q.path))))))
+					case opOpenFile:
+						// only used with plain regular files, the reserved path /CLOSEFILE and missing paths:
+						// whatever happens to the connection's file must leave the enumeration alone
+						if q.path == "/CLOSEFILE" {
+							fmt.Fprintf(&sb, "r%d=%s ", i, digest(make([]byte, 16)))
+						} else if ri, ok := statReal(filepath.Join(root, q.path)); ok && !ri.isDir {
+							fmt.Fprintf(&sb, "r%d=%s ", i, digest(append(be64(uint64(ri.size)), be64(uint64(ri.mtime))...)))
+						} else {
+							fmt.Fprintf(&sb, "r%d=%s ", i, digest(append(be64(^uint64(0)), make([]byte, 8)...)))
+						}
 					}
 				}
 				sb.WriteString("end=-")
